@@ -36,9 +36,11 @@ func FramingOf(k int) specref.Framing {
 // Options for a session.
 type Options struct {
 	ReadTimeout time.Duration
-	Hooks       modbus.ClientHooks
-	Flusher     bool
-	Clock       *xport.Clock
+	// WriteTimeout of the network clients (default 1 s).
+	WriteTimeout time.Duration
+	Hooks        modbus.ClientHooks
+	Flusher      bool
+	Clock        *xport.Clock
 	// OnParse, when set (network kinds only), makes the session use modbus.NewClient with a ParseResponseFunc that
 	// reports its input before delegating to the library parser of the framing.
 	OnParse func(data []byte)
@@ -84,10 +86,13 @@ func NewSession(kind int, o Options) *Session {
 	if o.ReadTimeout == 0 {
 		o.ReadTimeout = 2 * time.Second
 	}
+	if o.WriteTimeout == 0 {
+		o.WriteTimeout = time.Second
+	}
 	s := &Session{Kind: kind, Conn: conn, rt: o.ReadTimeout, dl: o.CtxDeadline}
 	switch kind {
 	case TCP, RTUNet:
-		cfg := modbus.ClientConfig{ReadTimeout: o.ReadTimeout, WriteTimeout: time.Second, Hooks: o.Hooks,
+		cfg := modbus.ClientConfig{ReadTimeout: o.ReadTimeout, WriteTimeout: o.WriteTimeout, Hooks: o.Hooks,
 			DialContextFunc: func(ctx context.Context, address string) (net.Conn, error) { return conn, nil }}
 		var c *modbus.Client
 		switch {
